@@ -41,7 +41,8 @@ func init() {
 			"(R4) the wrap side is selected by (p+N)/size > p/size; " +
 			"(R5) N is the smaller of the request and w-r (read) or size-(w-r+1) (write), and BytesReadable/BytesWriteable report the same quantities; " +
 			"(R6) ReadMultipleOf asks for k*(x/k) bytes with x the readable count; " +
-			"(R7) DiscardStride stores stride*(w/stride). " +
+			"(R7) DiscardStride stores stride*(w/stride); " +
+			"(R8) the Abaco user reads in chunks of its packet size and discards to a stride of the same field. " +
 			"Does not decide: the composition of operations over a history, 64-bit wrap-around of the pointers, concurrent access by the other process.",
 		RuleDocs: []string{
 			"C18.R1 who-may-store table of bufferDescription.readPointer / writePointer / bufferSize and RingBuffer.size over the package; consumers do not write the data region",
@@ -50,6 +51,7 @@ func init() {
 			"C18.R4 the condition selecting the `end = size` alternative compares the quotients of p+N and p by the size with > (or !=)",
 			"C18.R5 N is a two-way minimum (phi under a comparison of its two values, or min) of the request and the occupancy / free-space polynomial; accessors returning these polynomials agree",
 			"C18.R6 the argument of the read issued by ReadMultipleOf is k*quo(x,k), k its parameter, x a readable-count accessor's result or w-r",
+			"C18.R8 a user of the buffer that reads in chunks (ReadMultipleOf(x)) discards stale data only through DiscardStride of the same x (same field of the same owner), so that the read position stays on a chunk boundary; grouped by the struct type that holds the buffer",
 			"C18.R7 every alternative of the pointer stored by DiscardStride equals stride*quo(w,stride), the alternative `w` being taken only where w%stride was tested zero",
 		},
 		Assumptions: []string{
@@ -78,6 +80,7 @@ func runC18(p *Prog, r *Report) {
 	r.MinInstances["C18.R5"] = 3
 	r.MinInstances["C18.R6"] = 1
 	r.MinInstances["C18.R7"] = 1
+	r.MinInstances["C18.R8"] = 1
 	c := &c18ctx{p: p, r: r}
 	for _, fn := range p.LibFuncs() {
 		if pk := fnPkg(fn); pk != nil && pk.Path() == modPath+"/ringbuffer" {
@@ -92,6 +95,7 @@ func runC18(p *Prog, r *Report) {
 	c.ruleR1()
 	c.operations()
 	c.ruleR6()
+	c.ruleR8()
 }
 
 // ---- polynomial helpers ----------------------------------------------------------------
@@ -119,6 +123,42 @@ func c18normD(pc *PolyCtx, p Poly, depth int) Poly {
 		}
 		a, b := c18normD(pc, args[0], depth+1), c18normD(pc, args[1], depth+1)
 		q := polySym(strings.ReplaceAll("quo("+a.String()+","+b.String()+")", "*", "·"))
+		if isDiv {
+			whole[s] = q
+		} else {
+			whole[s] = a.Sub(b.Mul(q))
+		}
+	}
+	if len(whole) == 0 {
+		return p
+	}
+	out, _ := substPoly(p, whole, nil)
+	return out
+}
+
+// c18normSub: c18norm with whole symbols replaced by given (already normalised) polynomials at
+// every level, for reading a helper's formula in its caller's terms.
+func c18normSub(pc *PolyCtx, p Poly, subst map[string]Poly, depth int) Poly {
+	if depth > 6 {
+		return p
+	}
+	whole := map[string]Poly{}
+	for _, s := range p.Symbols() {
+		if q, has := subst[s]; has {
+			whole[s] = q
+			continue
+		}
+		if strings.HasSuffix(s, ".bufferSize") || strings.HasSuffix(s, "›.size") {
+			whole[s] = polySym("SIZE")
+			continue
+		}
+		isDiv, isMod := strings.HasPrefix(s, "/("), strings.HasPrefix(s, "%(")
+		args := pc.opArgs[s]
+		if !(isDiv || isMod) || len(args) != 2 {
+			continue
+		}
+		a, b := c18normSub(pc, args[0], subst, depth+1), c18normSub(pc, args[1], subst, depth+1)
+		q := c18quo(a, b)
 		if isDiv {
 			whole[s] = q
 		} else {
@@ -408,8 +448,9 @@ func (c *c18ctx) moving(fn *ssa.Function, g *GuardCtx, st *ssa.Store, consumer b
 	expHiNoWrap := c18rem(ownP.Add(N), c18Size)
 	Qa, Qb := c18quo(ownP.Add(N), c18Size), c18quo(ownP, c18Size)
 	// wrapTruth: what cond evaluates to when the data wrap / do not wrap; ok=false: not a test of the two quotients
-	wrapTruth := func(cond ssa.Value) (onWrap, onNoWrap bool, ok bool) {
-		neg := false
+	// condCmp: cond as a comparison x op y of normalised polynomials; a call of a module helper whose
+	// single return is a comparison of its parameters / loads is read through the call.
+	condCmp := func(cond ssa.Value) (x, y Poly, op token.Token, neg bool, ok bool) {
 		for {
 			u, isU := cond.(*ssa.UnOp)
 			if !isU || u.Op != token.NOT {
@@ -417,12 +458,48 @@ func (c *c18ctx) moving(fn *ssa.Function, g *GuardCtx, st *ssa.Store, consumer b
 			}
 			cond, neg = u.X, !neg
 		}
-		bo, isB := cond.(*ssa.BinOp)
-		if !isB {
+		switch b := cond.(type) {
+		case *ssa.BinOp:
+			return c18norm(pc, pc.Of(b.X)), c18norm(pc, pc.Of(b.Y)), b.Op, neg, true
+		case *ssa.Call:
+			callee := b.Call.StaticCallee()
+			if callee == nil || !isModuleFn(callee) {
+				return nil, nil, 0, false, false
+			}
+			var ret *ssa.Return
+			n := 0
+			for _, blk := range callee.Blocks {
+				if rt, isR := blk.Instrs[len(blk.Instrs)-1].(*ssa.Return); isR && blk != callee.Recover {
+					ret = rt
+					n++
+				}
+			}
+			if n != 1 || len(ret.Results) != 1 {
+				return nil, nil, 0, false, false
+			}
+			inner, isB := ret.Results[0].(*ssa.BinOp)
+			if !isB {
+				return nil, nil, 0, false, false
+			}
+			cpc := NewPolyCtx(callee)
+			cpc.G = true
+			subst := map[string]Poly{}
+			for i, prm := range callee.Params {
+				if i < len(b.Call.Args) && isIntLike(prm.Type()) {
+					for _, sym := range cpc.Of(prm).Symbols() {
+						subst[sym] = c18norm(pc, pc.Of(b.Call.Args[i]))
+					}
+				}
+			}
+			return c18normSub(cpc, cpc.Of(inner.X), subst, 0), c18normSub(cpc, cpc.Of(inner.Y), subst, 0), inner.Op, neg, true
+		}
+		return nil, nil, 0, false, false
+	}
+	wrapTruth := func(cond ssa.Value) (onWrap, onNoWrap bool, ok bool) {
+		x, y, op, neg, okc := condCmp(cond)
+		if !okc {
 			return false, false, false
 		}
-		x, y := c18norm(pc, pc.Of(bo.X)), c18norm(pc, pc.Of(bo.Y))
-		op := bo.Op
 		if x.Equal(Qb) && y.Equal(Qa) {
 			x, y = y, x
 			op = map[token.Token]token.Token{token.LSS: token.GTR, token.GTR: token.LSS, token.LEQ: token.GEQ, token.GEQ: token.LEQ, token.EQL: token.EQL, token.NEQ: token.NEQ}[op]
@@ -464,6 +541,31 @@ func (c *c18ctx) moving(fn *ssa.Function, g *GuardCtx, st *ssa.Store, consumer b
 		return -1
 	}
 
+	// wrapEvidence: the wrap side was not recognised under conds.  A comparison of p/size with the
+	// quotient of something other than p+N is positive evidence (the test looks at the wrong end);
+	// anything else is left undecided.
+	wrapEvidence := func(conds []ctrl, rule, key string, at ssa.Instruction) {
+		for _, ct := range conds {
+			x, y, _, _, ok := condCmp(ct.If.Cond)
+			if !ok {
+				continue
+			}
+			for _, pr := range [][2]Poly{{x, y}, {y, x}} {
+				if !pr[1].Equal(Qb) || pr[0].Equal(Qa) {
+					continue
+				}
+				syms := pr[0].Symbols()
+				if len(pr[0]) == 1 && len(syms) == 1 && strings.HasPrefix(syms[0], "quo(") && strings.HasSuffix(syms[0], ",SIZE)") {
+					other := strings.TrimSuffix(strings.TrimPrefix(syms[0], "quo("), ",SIZE)")
+					r.Bad(rule, key, p.InstrPos(ct.If), fmt.Sprintf("the test that tells a transfer that crosses the end of the buffer from one that does not compares pointer/size with (%s)/size, but the transfer ends at pointer+N = %s: whenever the two differ the pieces are cut at the wrong place (more bytes than N are moved, or the part after the wrap is left out)", strings.ReplaceAll(other, "·", "*"), ownP.Add(N)))
+					return
+				}
+			}
+		}
+		r.Unk(rule, key, p.InstrPos(at), "the condition is not recognised as (p+N)/size > p/size: not decided")
+	}
+	_ = wrapEvidence
+
 	// pieces: slices of the data region
 	type piece struct {
 		s      *ssa.Slice
@@ -485,7 +587,7 @@ func (c *c18ctx) moving(fn *ssa.Function, g *GuardCtx, st *ssa.Store, consumer b
 		return &piece{s, lo, hi}
 	}
 	// checkFirst: lo == p%size, hi in {(p+N)%size on the no-wrap side, size on the wrap side}
-	checkFirst := func(pc1 *piece, what string) {
+	checkFirst := func(pc1 *piece, what string) (sawWrap bool) {
 		if pc1.lo.Equal(expLo) {
 			r.OK("C18.R3", fname+": "+what+" starts at pointer % size", p.InstrPos(pc1.s), "low bound = "+pc1.lo.String())
 		} else if sh := func() int64 {
@@ -504,10 +606,10 @@ func (c *c18ctx) moving(fn *ssa.Function, g *GuardCtx, st *ssa.Store, consumer b
 		}
 		if pc1.s.High == nil {
 			r.Unk("C18.R3", fname+": "+what+" ends at (pointer+N) % size, or at size when the data wrap", p.InstrPos(pc1.s), "no high bound")
-			return
+			return true
 		}
 		alts := c18alts(pc1.s.High, 2)
-		sawWrap, sawNo := false, false
+		sawNo := false
 		for _, a := range alts {
 			h := c18norm(pc, pc.Of(a.v))
 			sd := -1
@@ -543,7 +645,7 @@ func (c *c18ctx) moving(fn *ssa.Function, g *GuardCtx, st *ssa.Store, consumer b
 						}
 					}
 					if !bad {
-						r.Unk("C18.R4", key+" [size]", p.InstrPos(pc1.s), "the condition under which the end is the buffer size is not recognised as (p+N)/size > p/size: not decided")
+						wrapEvidence(conds, "C18.R4", key+" [size]", pc1.s)
 					}
 				}
 			case h.Equal(expHiNoWrap):
@@ -574,6 +676,10 @@ func (c *c18ctx) moving(fn *ssa.Function, g *GuardCtx, st *ssa.Store, consumer b
 		if sawNo && sawWrap {
 			r.OK("C18.R3", fname+": "+what+" has both ends", p.InstrPos(pc1.s), "(p+N) % size and size")
 		}
+		if !sawNo && !sawWrap {
+			return true // unrecognised ends: do not conclude that the wrap side is absent
+		}
+		return sawWrap
 	}
 	// checkSecond: [0 : N - len(first)) and on the wrap side
 	checkSecond := func(first, second *piece, at ssa.Instruction, what string) {
@@ -609,13 +715,14 @@ func (c *c18ctx) moving(fn *ssa.Function, g *GuardCtx, st *ssa.Store, consumer b
 		case 0:
 			r.Bad("C18.R4", key+" is moved only when the data wrap", p.InstrPos(at), "the piece at the start of the data region is moved on the side where the data do not cross the end of the buffer")
 		default:
-			r.Unk("C18.R4", key+" is moved only when the data wrap", p.InstrPos(at), "the condition is not recognised: not decided")
+			wrapEvidence(controllingIfs(at.Block()), "C18.R4", key+" is moved only when the data wrap", at)
 		}
 	}
 
 	if consumer {
 		// the returned bytes
 		var first *piece
+		wrapSeen := false
 		nSecond, nLeaves := 0, 0
 		for _, b := range fn.Blocks {
 			if b == fn.Recover {
@@ -634,7 +741,7 @@ func (c *c18ctx) moving(fn *ssa.Function, g *GuardCtx, st *ssa.Store, consumer b
 					if first == nil || first.s != pc1.s {
 						if first == nil {
 							first = pc1
-							checkFirst(pc1, "the returned bytes: first piece")
+							wrapSeen = checkFirst(pc1, "the returned bytes: first piece")
 						}
 					}
 					// a lone first piece on the wrap side needs N <= len(first)
@@ -677,7 +784,7 @@ func (c *c18ctx) moving(fn *ssa.Function, g *GuardCtx, st *ssa.Store, consumer b
 							nSecond++
 							if first == nil {
 								first = f1
-								checkFirst(f1, "the returned bytes: first piece")
+								wrapSeen = checkFirst(f1, "the returned bytes: first piece")
 							}
 							checkSecond(f1, s2, call, "the returned bytes: second piece")
 							continue
@@ -689,14 +796,19 @@ func (c *c18ctx) moving(fn *ssa.Function, g *GuardCtx, st *ssa.Store, consumer b
 		}
 		if nLeaves == 0 {
 			r.Unk("C18.R3", fname+": the returned bytes", p.InstrPos(st), "no byte-slice result is returned after the pointer store: where the bytes go is not recognised")
-		} else if first != nil && nSecond == 0 {
+		} else if first != nil && nSecond == 0 && wrapSeen {
 			r.Bad("C18.R3", fname+": the returned bytes: second piece", p.InstrPos(first.s), "no way through the function appends the piece at the start of the data region: a read that crosses the end of the buffer delivers only the bytes up to the end while the pointer advances by the full count - the rest are lost")
 		}
 	} else {
-		// the producer: copy(raw[..], data[..])
+		// the producer: copy(raw[..], data[..]); a copy moves min(len(dst), len(src)) bytes, so a side
+		// without an upper bound relies on the other side's
 		type cp struct {
-			call     *ssa.Call
-			dst, src *ssa.Slice
+			call         *ssa.Call
+			dst          *ssa.Slice // nil: the whole data region
+			dLo, dLn     Poly       // dLn nil: to the end of the region
+			sLo, sLn     Poly       // sLn nil: to the end of the source
+			srcIsWhole   bool
+			dstHasBounds bool
 		}
 		var copies []cp
 		Instrs(fn, func(in ssa.Instruction) {
@@ -704,71 +816,151 @@ func (c *c18ctx) moving(fn *ssa.Function, g *GuardCtx, st *ssa.Store, consumer b
 			if !ok {
 				return
 			}
-			if b, isB := call.Call.Value.(*ssa.Builtin); isB && b.Name() == "copy" && c.isRaw(call.Call.Args[0]) {
-				d, _ := call.Call.Args[0].(*ssa.Slice)
-				s, _ := call.Call.Args[1].(*ssa.Slice)
-				copies = append(copies, cp{call, d, s})
+			b, isB := call.Call.Value.(*ssa.Builtin)
+			if !isB || b.Name() != "copy" || !c.isRaw(call.Call.Args[0]) || !InstrReaches(call, st) {
+				return
 			}
+			x := cp{call: call, dLo: polyConst(0), sLo: polyConst(0)}
+			if d, isS := call.Call.Args[0].(*ssa.Slice); isS {
+				x.dst = d
+				if d.Low != nil {
+					x.dLo = pc.Of(d.Low)
+				}
+				if d.High != nil {
+					x.dLn = pc.Of(d.High).Sub(x.dLo)
+					x.dstHasBounds = true
+				}
+			}
+			if sl, isS := call.Call.Args[1].(*ssa.Slice); isS {
+				if sl.Low != nil {
+					x.sLo = pc.Of(sl.Low)
+				}
+				if sl.High != nil {
+					x.sLn = pc.Of(sl.High).Sub(x.sLo)
+				}
+			} else {
+				x.srcIsWhole = true
+			}
+			copies = append(copies, x)
 		})
+		rawN := pc.Of(st.Val).Sub(pc.Of(ownLoad))
 		var firstP *piece
-		var firstCp cp
+		var firstLen Poly
+		wrapSeenP := false
+		firstRes := map[string]Poly{} // the first copy's result stands for len(first)
 		nSecond := 0
 		for _, cpy := range copies {
-			if cpy.dst == nil {
-				r.Unk("C18.R3", fname+": the bytes stored", p.InstrPos(cpy.call), "the destination of the copy is the whole data region: not decided")
-				continue
-			}
-			pcs := asPiece(cpy.dst)
-			if pcs.lo.IsZero() && cpy.dst.Low != nil || (cpy.dst.Low == nil && firstP != nil) {
-				// second piece
-				if firstP == nil {
-					r.Unk("C18.R3", fname+": the bytes stored: second piece", p.InstrPos(cpy.call), "a copy to the start of the data region precedes the copy at pointer % size: not decided")
+			isSecond := c18norm(pc, cpy.dLo).IsZero()
+			if !isSecond {
+				if firstP != nil {
+					r.Unk("C18.R3", fname+": the bytes stored", p.InstrPos(cpy.call), "more than one copy to a position other than the start of the data region: not decided")
 					continue
 				}
-				nSecond++
-				checkSecond(firstP, pcs, cpy.call, "the bytes stored: second piece")
-				// its source continues where the first stopped
-				firstLen := pc.lenOf(firstP.s)
-				if cpy.src != nil && cpy.src.Low != nil && pc.Of(cpy.src.Low).Sub(firstLen).IsZero() {
-					r.OK("C18.R3", fname+": the bytes stored: second piece continues the source", p.InstrPos(cpy.call), "source starts at len(first)")
-				} else if cpy.src != nil && cpy.src.Low != nil {
-					if pc.Of(cpy.src.Low).IsZero() {
-						r.Bad("C18.R3", fname+": the bytes stored: second piece continues the source", p.InstrPos(cpy.call), "the second copy takes the caller's bytes from their start again: the first bytes are stored twice and the rest are lost")
-					} else if d, isC := pc.Of(cpy.src.Low).Sub(firstLen).IsConst(); isC {
-						r.Bad("C18.R3", fname+": the bytes stored: second piece continues the source", p.InstrPos(cpy.call), fmt.Sprintf("the second copy takes the caller's bytes from %d byte(s) past where the first copy stopped: bytes are skipped or stored twice at every wrap", d))
+				if cpy.dst == nil || cpy.dst.High == nil {
+					r.Unk("C18.R3", fname+": the bytes stored: first piece", p.InstrPos(cpy.call), "the destination of the copy at pointer % size has no upper bound: not decided")
+					continue
+				}
+				firstP = asPiece(cpy.dst)
+				firstLen = cpy.dLn
+				wrapSeenP = checkFirst(firstP, "the bytes stored: first piece")
+				if sym := pc.Of(cpy.call).Symbols(); len(sym) == 1 {
+					firstRes[sym[0]] = firstLen
+				}
+				key := fname + ": the bytes stored: first piece takes the first bytes of the source"
+				switch {
+				case !cpy.sLo.IsZero():
+					r.Bad("C18.R3", key, p.InstrPos(cpy.call), "the first copy does not start at the first byte of the caller's slice (offset "+cpy.sLo.String()+")")
+				case cpy.sLn == nil || cpy.sLn.Sub(firstLen).IsZero():
+					r.OK("C18.R3", key, p.InstrPos(cpy.call), "source from offset 0, as many bytes as the destination holds")
+				default:
+					if d, isC := cpy.sLn.Sub(firstLen).IsConst(); isC && d < 0 {
+						r.Bad("C18.R3", key, p.InstrPos(cpy.call), fmt.Sprintf("the source of the first copy is %d byte(s) shorter than its destination: the last byte(s) before the wrap point keep their old contents", -d))
+					} else if isC {
+						r.OK("C18.R3", key, p.InstrPos(cpy.call), "source from offset 0, at least as long as the destination")
 					} else {
-						r.Unk("C18.R3", fname+": the bytes stored: second piece continues the source", p.InstrPos(cpy.call), "source offset not recognised: not decided")
+						r.Unk("C18.R3", key, p.InstrPos(cpy.call), "source bounds not recognised: not decided")
 					}
-				} else {
-					r.Bad("C18.R3", fname+": the bytes stored: second piece continues the source", p.InstrPos(cpy.call), "the second copy takes the caller's bytes from their start again: the first bytes are stored twice and the rest are lost")
 				}
 				continue
 			}
+			// a copy to the start of the data region: the second piece
 			if firstP == nil {
-				firstP, firstCp = pcs, cpy
-				checkFirst(pcs, "the bytes stored: first piece")
-				// source: data[0:len(first)]
-				if cpy.src != nil {
-					lo := polyConst(0)
-					if cpy.src.Low != nil {
-						lo = pc.Of(cpy.src.Low)
+				r.Unk("C18.R3", fname+": the bytes stored: second piece", p.InstrPos(cpy.call), "a copy to the start of the data region precedes the copy at pointer % size: not decided")
+				continue
+			}
+			nSecond++
+			sub := func(q Poly) Poly {
+				if q == nil {
+					return nil
+				}
+				out, _ := substPoly(q, firstRes, nil)
+				return out
+			}
+			E := rawN.Sub(firstLen)
+			dLn, sLn, sLo := sub(cpy.dLn), sub(cpy.sLn), sub(cpy.sLo)
+			key := fname + ": the bytes stored: second piece has length N - len(first)"
+			r.OK("C18.R3", fname+": the bytes stored: second piece starts at 0", p.InstrPos(cpy.call), "destination offset 0")
+			if dLn == nil && sLn == nil {
+				r.Bad("C18.R3", key, p.InstrPos(cpy.call), "the copy to the start of the data region is bounded neither by its destination nor by its source: it moves every remaining byte of the caller's slice, not N - len(first); when the write was clamped to the free space, the bytes that were not accepted are stored too and overwrite data that have not been read")
+			} else {
+				verdict := 0 // 1 ok, -1 bad, 0 unknown
+				msg := ""
+				for _, b := range []Poly{dLn, sLn} {
+					if b == nil {
+						continue
 					}
-					okSrc := lo.IsZero()
-					if cpy.src.High != nil && !pc.Of(cpy.src.High).Sub(pc.lenOf(pcs.s)).IsZero() {
-						okSrc = false
-					}
-					if okSrc {
-						r.OK("C18.R3", fname+": the bytes stored: first piece takes the first bytes of the source", p.InstrPos(cpy.call), "source [0 : len(first))")
-					} else {
-						r.Unk("C18.R3", fname+": the bytes stored: first piece takes the first bytes of the source", p.InstrPos(cpy.call), "source bounds not recognised: not decided")
+					switch {
+					case b.Sub(E).IsZero(), c18norm(pc, b).Equal(expHiNoWrap):
+						if verdict == 0 {
+							verdict = 1
+						}
+					default:
+						if d, isC := b.Sub(E).IsConst(); isC {
+							if d < 0 || verdict != 1 { // a looser bound beside an exact one is harmless
+								verdict, msg = -1, fmt.Sprintf("the two pieces together are %d byte(s) off the count the pointer advances by: the stream loses or repeats bytes at every wrap", d)
+							}
+						} else if tot := b.Add(firstLen); len(tot) == 1 && len(tot.Symbols()) == 1 && tot[tot.Symbols()[0]] == 1 {
+							verdict, msg = -1, fmt.Sprintf("the two pieces together hold %s bytes, but the pointer advances by %s: two different counts", tot, rawN)
+						} else if verdict == 0 {
+							msg = "bound " + b.String() + " not recognised"
+						}
 					}
 				}
+				switch verdict {
+				case 1:
+					r.OK("C18.R3", key, p.InstrPos(cpy.call), "the copy moves N - len(first) bytes")
+				case -1:
+					r.Bad("C18.R3", key, p.InstrPos(cpy.call), msg)
+				default:
+					r.Unk("C18.R3", key, p.InstrPos(cpy.call), msg+": not decided")
+				}
+			}
+			key = fname + ": the bytes stored: second piece continues the source"
+			switch {
+			case sLo.Sub(firstLen).IsZero():
+				r.OK("C18.R3", key, p.InstrPos(cpy.call), "source starts at len(first)")
+			case sLo.IsZero():
+				r.Bad("C18.R3", key, p.InstrPos(cpy.call), "the second copy takes the caller's bytes from their start again: the first bytes are stored twice and the rest are lost")
+			default:
+				if d, isC := sLo.Sub(firstLen).IsConst(); isC {
+					r.Bad("C18.R3", key, p.InstrPos(cpy.call), fmt.Sprintf("the second copy takes the caller's bytes from %d byte(s) past where the first copy stopped: bytes are skipped or stored twice at every wrap", d))
+				} else {
+					r.Unk("C18.R3", key, p.InstrPos(cpy.call), "source offset "+sLo.String()+" not recognised: not decided")
+				}
+			}
+			key = fname + ": the bytes stored: second piece is moved only when the data wrap"
+			switch sideOf(controllingIfs(cpy.call.Block())) {
+			case 1:
+				r.OK("C18.R4", key, p.InstrPos(cpy.call), "under (p+N)/size > p/size")
+			case 0:
+				r.Bad("C18.R4", key, p.InstrPos(cpy.call), "the piece at the start of the data region is moved on the side where the data do not cross the end of the buffer")
+			default:
+				wrapEvidence(controllingIfs(cpy.call.Block()), "C18.R4", key, cpy.call)
 			}
 		}
-		_ = firstCp
 		if firstP == nil {
-			r.Unk("C18.R3", fname+": the bytes stored", p.InstrPos(st), "no copy into the data region found in the producer")
-		} else if nSecond == 0 {
+			r.Unk("C18.R3", fname+": the bytes stored", p.InstrPos(st), "no copy into the data region at pointer % size found in the producer")
+		} else if nSecond == 0 && wrapSeenP {
 			r.Bad("C18.R3", fname+": the bytes stored: second piece", p.InstrPos(firstP.s), "no copy to the start of the data region: a write that crosses the end of the buffer stores only the bytes up to the end while the pointer advances by the full count")
 		}
 		// the count returned is the count the pointer advanced by
@@ -812,15 +1004,46 @@ func (c *c18ctx) clamp(fn *ssa.Function, g *GuardCtx, st *ssa.Store, consumer bo
 	what := map[bool]string{true: "the occupancy w - r", false: "the free space size - (w - r + 1)"}[consumer]
 	key := fname + ": N is the smaller of the request and " + what
 	occ, free, ok := c.quantities(pc, wl, rl)
+	wantKind := map[bool]string{true: "occ", false: "free"}[consumer]
+	syms := N.Symbols()
+	// the bound taken from an accessor (BytesReadable / BytesWriteable): judged where the accessor is (R5 accessors)
+	if len(syms) == 1 && N[syms[0]] == 1 {
+		if nv, okv := pc.symValue(syms[0]); okv {
+			var cands []ssa.Value
+			isMin := false
+			switch x := nv.(type) {
+			case *ssa.Call:
+				if b, isB := x.Call.Value.(*ssa.Builtin); isB && b.Name() == "min" {
+					cands, isMin = x.Call.Args, true
+				} else if callee := x.Call.StaticCallee(); callee != nil && minMaxKind(callee) == "min" {
+					cands, isMin = x.Call.Args, true
+				}
+			}
+			if isMin {
+				for _, a := range cands {
+					if c.accessorCall(a, wantKind) {
+						r.OK("C18.R5", key, p.InstrPos(nv.(ssa.Instruction)), "N = min(request, the accessor that reports "+what+")")
+						return
+					}
+				}
+				other := map[string]string{"occ": "free", "free": "occ"}[wantKind]
+				for _, a := range cands {
+					if c.accessorCall(a, other) {
+						r.Bad("C18.R5", key, p.InstrPos(nv.(ssa.Instruction)), "N is bounded by the accessor for the other side's quantity, not by "+what)
+						return
+					}
+				}
+			}
+		}
+	}
 	if !ok {
-		r.Unk("C18.R5", key, p.InstrPos(st), "the function does not load both pointers: what bounds N is not visible here")
+		r.Unk("C18.R5", key, p.InstrPos(st), "the function does not load both pointers and the bound is not an accessor's result: what bounds N is not visible here")
 		return
 	}
 	want := occ
 	if !consumer {
 		want = free
 	}
-	syms := N.Symbols()
 	if len(syms) != 1 || N[syms[0]] != 1 {
 		r.Unk("C18.R5", key, p.InstrPos(st), "N = "+N.String()+" is not a single value: not decided")
 		return
@@ -1009,6 +1232,60 @@ func (c *c18ctx) discard(fn *ssa.Function, g *GuardCtx, st *ssa.Store, name stri
 	}
 }
 
+// accessorKind: "occ" when fn stores no pointer and every value it returns is w - r (or the clamp
+// size - 1), "free" when every value is size - (w - r + 1), "" otherwise.
+func (c *c18ctx) accessorKind(fn *ssa.Function) string {
+	if fn == nil || fn.Blocks == nil {
+		return ""
+	}
+	if len(StoresTo(fn, c18Desc, "readPointer"))+len(StoresTo(fn, c18Desc, "writePointer")) > 0 {
+		return ""
+	}
+	wl := c18fieldLoads(fn, c18Desc, "writePointer")
+	rl := c18fieldLoads(fn, c18Desc, "readPointer")
+	if len(wl) == 0 || len(rl) == 0 || fn.Signature.Results().Len() != 1 || !isIntLike(fn.Signature.Results().At(0).Type()) {
+		return ""
+	}
+	pc := NewPolyCtx(fn)
+	pc.G = true
+	occ, free, _ := c.quantities(pc, wl, rl)
+	kind := ""
+	for _, b := range fn.Blocks {
+		ret, ok := b.Instrs[len(b.Instrs)-1].(*ssa.Return)
+		if !ok || b == fn.Recover {
+			continue
+		}
+		for _, a := range c18alts(returnedValue(ret, 0), 2) {
+			q := c18norm(pc, pc.Of(a.v))
+			switch {
+			case q.Equal(occ):
+				if kind == "free" {
+					return ""
+				}
+				kind = "occ"
+			case q.Equal(free):
+				if kind == "occ" {
+					return ""
+				}
+				kind = "free"
+			case q.Equal(c18Size.Sub(polyConst(1))):
+			default:
+				return ""
+			}
+		}
+	}
+	return kind
+}
+
+// accessorCall: v (conversions stripped) is a call of an accessor of the given kind.
+func (c *c18ctx) accessorCall(v ssa.Value, kind string) bool {
+	call, ok := stripConv(v).(*ssa.Call)
+	if !ok {
+		return false
+	}
+	return c.accessorKind(call.Call.StaticCallee()) == kind
+}
+
 // accessors (R5, sibling agreement): functions that load both pointers, store neither, return an int.
 func (c *c18ctx) accessors() {
 	p, r := c.p, c.r
@@ -1107,11 +1384,6 @@ func (c *c18ctx) ruleR6() {
 			return
 		}
 		found = true
-		arg := c18norm(pc, pc.Of(call.Call.Args[1]))
-		// k * quo(x, k)
-		var x Poly
-		var xv ssa.Value
-		okForm := false
 		type quoT struct {
 			x  Poly
 			xv ssa.Value
@@ -1122,47 +1394,195 @@ func (c *c18ctx) ruleR6() {
 				quos = append(quos, quoT{c18norm(pc, pc.Of(bo.X)), stripConv(bo.X)})
 			}
 		})
-		for _, q := range quos {
-			if arg.Equal(k.Mul(c18quo(q.x, k))) {
-				okForm, x, xv = true, q.x, q.xv
+		hasFactor := func(q Poly, sym string) bool {
+			for mono := range q {
+				has := false
+				for _, f := range strings.Split(mono, "*") {
+					if f == sym {
+						has = true
+					}
+				}
+				if !has {
+					return false
+				}
+			}
+			return true
+		}
+		ksym := ""
+		if ks := k.Symbols(); len(ks) == 1 {
+			ksym = ks[0]
+		}
+		wl := c18fieldLoads(fn, c18Desc, "writePointer")
+		rl := c18fieldLoads(fn, c18Desc, "readPointer")
+		occ, _, haveOcc := c.quantities(pc, wl, rl)
+		verdict, why := 1, ""
+		note := func(v int, msg string) {
+			if v < verdict {
+				verdict, why = v, msg
 			}
 		}
-		if !okForm {
-			// positive evidence: quotient without the multiplication, or a constant offset
+		for _, a := range c18alts(call.Call.Args[1], 2) {
+			arg := c18norm(pc, pc.Of(a.v))
+			if arg.IsZero() {
+				continue
+			}
+			var xv ssa.Value
+			okForm := false
 			for _, q := range quos {
-				if arg.Equal(c18quo(q.x, k)) {
-					r.Bad("C18.R6", key, p.InstrPos(call), "the read is asked for x/k bytes, the number of chunks, not k*(x/k): the result is not a whole number of chunks")
-					return
-				}
-				if dd, isC := arg.Sub(k.Mul(c18quo(q.x, k))).IsConst(); isC {
-					r.Bad("C18.R6", key, p.InstrPos(call), fmt.Sprintf("the read is asked for k*(x/k) %+d bytes: not a whole number of chunks", dd))
-					return
+				if arg.Equal(k.Mul(c18quo(q.x, k))) {
+					okForm, xv = true, q.xv
 				}
 			}
-			r.Unk("C18.R6", key, p.InstrPos(call), "the size asked for ("+arg.String()+") is not recognised as k*(x/k): not decided")
-			return
-		}
-		// x: what is readable
-		good := false
-		if c2, isCall := xv.(*ssa.Call); isCall {
-			if cal := c2.Call.StaticCallee(); cal != nil && len(c18fieldLoads(cal, c18Desc, "writePointer")) > 0 && len(c18fieldLoads(cal, c18Desc, "readPointer")) > 0 && len(StoresTo(cal, c18Desc, "readPointer")) == 0 {
-				good = true // judged by the accessor rule (R5)
+			if !okForm {
+				done := false
+				for _, q := range quos {
+					if arg.Equal(c18quo(q.x, k)) {
+						note(-1, "the read is asked for x/k bytes, the number of chunks, not k*(x/k): the result is not a whole number of chunks")
+						done = true
+					} else if dd, isC := arg.Sub(k.Mul(c18quo(q.x, k))).IsConst(); isC {
+						note(-1, fmt.Sprintf("the read is asked for k*(x/k) %+d bytes: not a whole number of chunks", dd))
+						done = true
+					}
+				}
+				if !done {
+					if ksym != "" && !hasFactor(arg, ksym) {
+						note(-1, "one of the sizes the read can be asked for is "+arg.String()+", which is not a multiple of the chunk size: the bytes returned are then not a whole number of chunks, and the read position is left inside a chunk")
+					} else {
+						note(0, "the size asked for ("+arg.String()+") is not recognised as k*(x/k)")
+					}
+				}
+				continue
+			}
+			// x: what is readable, whichever way it was obtained
+			for _, xa := range c18alts(xv, 2) {
+				xp := c18norm(pc, pc.Of(xa.v))
+				switch {
+				case c.accessorCall(xa.v, "occ"):
+				case haveOcc && xp.Equal(occ):
+				default:
+					ptr := false
+					for _, sym := range xp.Symbols() {
+						if strings.Contains(sym, "Pointer") || strings.HasPrefix(sym, "call:") {
+							ptr = true
+						}
+					}
+					if !ptr {
+						note(-1, "the number of chunks is computed from "+xp.String()+" on one way, which is not what is readable (the occupancy w - r, as BytesReadable reports it): the read then returns what is really there, which need not be a whole number of chunks")
+					} else {
+						note(0, "asks for k*(x/k) with x = "+xp.String()+", which is not recognised as the readable count")
+					}
+				}
 			}
 		}
-		if !good {
-			wl := c18fieldLoads(fn, c18Desc, "writePointer")
-			rl := c18fieldLoads(fn, c18Desc, "readPointer")
-			if occ, _, ok := c.quantities(pc, wl, rl); ok && x.Equal(occ) {
-				good = true
-			}
-		}
-		if good {
+		switch verdict {
+		case 1:
 			r.OK("C18.R6", key, p.InstrPos(call), "asks for k*(x/k), x the readable count")
-		} else {
-			r.Unk("C18.R6", key, p.InstrPos(call), "asks for k*(x/k) with x = "+x.String()+", which is not recognised as the readable count: not decided")
+		case -1:
+			r.Bad("C18.R6", key, p.InstrPos(call), why)
+		default:
+			r.Unk("C18.R6", key, p.InstrPos(call), why+": not decided")
 		}
 	})
 	if !found {
 		r.Unk("C18.R6", key, p.Pos(fn.Pos()), "no call of a read operation found")
+	}
+}
+
+
+// ---- R8: the user keeps the read position on its own unit --------------------------------
+
+func (c *c18ctx) ruleR8() {
+	p, r := c.p, c.r
+	type use struct {
+		in    ssa.Instruction
+		name  string
+		arg   ssa.Value // nil: no size argument (DiscardAll)
+		owner string
+	}
+	byOwner := map[string][]use{}
+	for _, fn := range p.LibFuncs() {
+		if pk := fnPkg(fn); pk == nil || pk.Path() == modPath+"/ringbuffer" {
+			continue
+		}
+		Instrs(fn, func(in ssa.Instruction) {
+			cc := CallOf(in)
+			if cc == nil {
+				return
+			}
+			callee := cc.StaticCallee()
+			if callee == nil || fnPkg(callee) == nil || fnPkg(callee).Path() != modPath+"/ringbuffer" || len(cc.Args) == 0 {
+				return
+			}
+			switch callee.Name() {
+			case "ReadMultipleOf", "DiscardStride", "DiscardAll":
+			default:
+				return
+			}
+			owner := "?"
+			if o, f, _, ok := FieldOf(cc.Args[0]); ok {
+				owner = o + "." + f
+			}
+			u := use{in: in, name: callee.Name(), owner: owner}
+			if len(cc.Args) > 1 {
+				u.arg = cc.Args[1]
+			}
+			byOwner[owner] = append(byOwner[owner], u)
+			r.Fn(FuncName(fn))
+		})
+	}
+	var owners []string
+	for o := range byOwner {
+		owners = append(owners, o)
+	}
+	sort.Strings(owners)
+	fieldKey := func(v ssa.Value) string {
+		if v == nil {
+			return ""
+		}
+		if o, f, _, ok := FieldOf(stripConv(v)); ok {
+			return o + "." + f
+		}
+		return ""
+	}
+	for _, o := range owners {
+		unit := ""
+		unitOK := true
+		for _, u := range byOwner[o] {
+			if u.name != "ReadMultipleOf" {
+				continue
+			}
+			k := fieldKey(u.arg)
+			if k == "" || (unit != "" && unit != k) {
+				unitOK = false
+			}
+			unit = k
+		}
+		if unit == "" && unitOK {
+			continue // this holder does not read in chunks
+		}
+		n := 0
+		for _, u := range byOwner[o] {
+			if u.name == "ReadMultipleOf" {
+				continue
+			}
+			n++
+			key := fmt.Sprintf("%s: discard #%d keeps the read position on the unit of the chunked reads", o, n)
+			switch {
+			case !unitOK:
+				r.Unk("C18.R8", key, p.InstrPos(u.in), "the chunk size of this holder's reads is not one field of the holder: not decided")
+			case u.name == "DiscardAll":
+				r.Bad("C18.R8", key, p.InstrPos(u.in), "this holder reads in whole chunks of "+unit+" (ReadMultipleOf) but discards stale data with DiscardAll, i.e. to wherever the write pointer stands: when the producer is part-way through a chunk the read position is left inside it, and every later chunked read starts in the middle of a unit")
+			case fieldKey(u.arg) == unit:
+				r.OK("C18.R8", key, p.InstrPos(u.in), "DiscardStride("+unit+")")
+			case fieldKey(u.arg) != "":
+				r.Bad("C18.R8", key, p.InstrPos(u.in), "this holder reads in whole chunks of "+unit+" but discards to a stride of "+fieldKey(u.arg)+": the read position can be left off a chunk boundary")
+			default:
+				if kk, isC := constInt(stripConv(u.arg)); isC {
+					r.Bad("C18.R8", key, p.InstrPos(u.in), fmt.Sprintf("this holder reads in whole chunks of %s but discards to a stride of the constant %d", unit, kk))
+				} else {
+					r.Unk("C18.R8", key, p.InstrPos(u.in), "the stride is not recognised as the field the chunked reads use: not decided")
+				}
+			}
+		}
 	}
 }
